@@ -493,6 +493,8 @@ def bip38_decrypt(encrypted_privkey, password):
         else:
             owner_salt: bytes = owner_entropy
 
+        if isinstance(password, str):
+            password = unicodedata.normalize('NFC', password)
         pass_factor = scrypt_hash(password, owner_salt, 32, 16384, 8, 8)
         if lot_and_sequence:
             pass_factor: bytes = double_sha256(pass_factor + owner_entropy)
